@@ -117,5 +117,6 @@ Spec == Init /\ [][AddArg \/ Close]_vars
 Agree == stage = "done" => LET e == Expect(sig, args, blk) IN e.k = "unspec" \/ Bind(sig, args, blk) = e
 
 Emit == ~(EmitCases /\ stage = "done") \/
-        PrintT("CASE " \o ToJson([gen |-> "CallBinding", sig |-> sig, args |-> args, blk |-> blk, expect |-> Expect(sig, args, blk)]))
+        PrintT("CASE " \o ToJson([gen |-> "CallBinding", sig |-> sig, args |-> args, blk |-> blk, expect |-> Expect(sig, args, blk),
+                                  bind |-> Bind(sig, args, blk).k]))
 =============================================================================
